@@ -69,6 +69,8 @@ pub struct StubScript {
     pub value: Option<Vec<u8>>,
     /// answer with a wrong message id
     pub wrong_id: bool,
+    /// answer every request with exactly this result (hostile replies)
+    pub raw_result: Option<DhtNetworkResult>,
 }
 
 struct Entry {
@@ -240,7 +242,10 @@ impl Hub {
         if !matches!(m.message_type, DhtMessageType::Request) {
             return None;
         }
-        let result = match &m.payload {
+        let result = if let Some(r) = &script.raw_result {
+            r.clone()
+        } else {
+            match &m.payload {
             DhtNetworkOperation::FindNode { key } => DhtNetworkResult::NodesFound { key: *key, nodes: script.reply_nodes.clone() },
             DhtNetworkOperation::FindValue { key } | DhtNetworkOperation::Get { key } => match &script.value {
                 Some(v) => DhtNetworkResult::ValueFound { key: *key, value: v.clone(), source: stub_id.to_string() },
@@ -255,6 +260,7 @@ impl Hub {
             DhtNetworkOperation::Ping => DhtNetworkResult::PongReceived { responder: stub_id.to_string(), latency: Duration::ZERO },
             DhtNetworkOperation::Join => DhtNetworkResult::JoinSuccess { assigned_key: dht_key_of(&m.source), bootstrap_peers: 1 },
             DhtNetworkOperation::Leave => DhtNetworkResult::LeaveSuccess,
+            }
         };
         let resp = DhtNetworkMessage {
             message_id: if script.wrong_id { format!("{}-x", m.message_id) } else { m.message_id.clone() },
